@@ -23,6 +23,13 @@ type Frame struct {
 	Catch string `json:"catch,omitempty"` // "" | swallow | rethrow | new
 	Fin   bool   `json:"fin,omitempty"`
 	FA    string `json:"fa,omitempty"` // what the finally block does after logging: "" | throw | return
+	// js: the call of the next frame happens inside a generator body driven by this frame ("gen-next": three
+	// next() calls, "gen-forof": a for-of loop).  The body first suspends INSIDE a try statement, leaves it
+	// normally, suspends again with no active try, then makes the call: it has no active try at the throw point
+	// and is transparent.  nat with cb forof: Gen = the iterable handed to Runtime.ForOf is such a generator.
+	Body  string `json:"body,omitempty"`
+	Gen   bool   `json:"gen,omitempty"`
+	Stale string `json:"stale,omitempty"` // the try statement left long ago has a "catch" (default) or a "finally"
 	En    string `json:"en,omitempty"` // fc refl reflerr ctor proxy dyn getter
 	Cb    string `json:"cb,omitempty"` // callable ctor runstring exporterr exportnoerr get tryget forof
 	H     string `json:"h,omitempty"`  // panicerr panicvalue panicwrap returnerr returnwrap returnjoin
@@ -55,6 +62,11 @@ type Case struct {
 	HasPost bool    `json:"haspost,omitempty"`
 	Post    []Frame `json:"post,omitempty"`
 	Th      Thrower `json:"th"`
+	// Async: the promise-job boundary is an async function body (await inside a try, await outside, then the call)
+	// instead of Promise.resolve().then(...); EntryGen: the embedder's ForOf iterates a generator
+	Async    bool   `json:"async,omitempty"`
+	EntryGen bool   `json:"entrygen,omitempty"`
+	Stale    string `json:"stale,omitempty"`
 }
 
 var entries = []string{"fc", "refl", "reflerr", "ctor", "proxy", "dyn", "getter"}
@@ -109,8 +121,15 @@ func normFrames(fs []Frame, firstMustBeJS, lastMustBeJS bool) []Frame {
 			if f.S < 1 || f.S > 3 {
 				f.S = 1
 			}
-			f.Catch, f.Fin, f.FA = "", false, ""
+			f.Catch, f.Fin, f.FA, f.Body = "", false, "", ""
+			if f.Cb != "forof" {
+				f.Gen = false
+			}
 		} else {
+			f.Gen = false
+			if f.Body != "gen-next" && f.Body != "gen-forof" {
+				f.Body = ""
+			}
 			f.K = "js"
 			if !f.Fin || (f.FA != "throw" && f.FA != "return") {
 				f.FA = ""
@@ -128,8 +147,15 @@ func normFrames(fs []Frame, firstMustBeJS, lastMustBeJS bool) []Frame {
 func nativeThrower(t string) bool { return strings.HasPrefix(t, "nat") }
 
 func normalize(c Case) Case {
+	if !c.HasPost {
+		c.Async = false
+	}
+	if c.Entry != "forof" {
+		c.EntryGen = false
+	}
 	if c.HasPost {
 		c.Ops = normFrames(c.Ops, true, true)
+		c.Ops[len(c.Ops)-1].Body = "" // the boundary frame makes its call inside a job
 		c.Post = normFrames(c.Post, false, nativeThrower(c.Th.T))
 	} else {
 		c.Ops = normFrames(c.Ops, true, nativeThrower(c.Th.T))
@@ -439,7 +465,7 @@ func effHandler(f Frame) string {
 }
 
 // the Go code of a native frame (or of the embedder) calling entity k through convention cb
-func (r *runner) callNext(k int, cb string) (err error) {
+func (r *runner) callNext(k int, cb string, gen bool) (err error) {
 	vm := r.vm
 	name := fmt.Sprintf("C%d", k)
 	switch cb {
@@ -477,7 +503,12 @@ func (r *runner) callNext(k int, cb string) (err error) {
 			err = ex
 		}
 	case "forof":
-		vm.ForOf(vm.Get(fmt.Sprintf("I%d", k)), func(goja.Value) bool { return true })
+		if gen {
+			cnt := 0
+			vm.ForOf(vm.Get(fmt.Sprintf("IG%d", k)), func(goja.Value) bool { cnt++; return cnt < 10 })
+		} else {
+			vm.ForOf(vm.Get(fmt.Sprintf("I%d", k)), func(goja.Value) bool { return true })
+		}
 	default:
 		panic("bad cb " + cb)
 	}
@@ -486,7 +517,7 @@ func (r *runner) callNext(k int, cb string) (err error) {
 
 func (r *runner) natBody(i int) (goja.Value, error) {
 	f := r.frames[i]
-	err := r.callNext(i+1, f.Cb)
+	err := r.callNext(i+1, f.Cb, f.Gen)
 	if err == nil {
 		return goja.Undefined(), nil
 	}
@@ -668,8 +699,40 @@ func runCase(c0 Case) vh.Record {
 			continue
 		}
 		invoke := r.callExpr(i+1) + ";"
+		staleTry := func(tag int, stale, suspend string) {
+			emit("try {")
+			emit(suspend + " 1;")
+			if stale == "finally" {
+				emit(fmt.Sprintf("} finally { if (PH%d) LOGF(%d); }", tag, tag))
+			} else {
+				emit(fmt.Sprintf("} catch (e) { LOGC(%d, e); }", tag))
+			}
+			emit(suspend + " 2;")
+			emit(fmt.Sprintf("if (++GN%d > 4) return;", tag))
+			emit(fmt.Sprintf("PH%d = 1;", tag))
+		}
 		if c.HasPost && i == len(c.Ops)-1 {
-			invoke = fmt.Sprintf("Promise.resolve().then(function(){ return %s; }).catch(function(e){ LOGR(%d, e); });", r.callExpr(i+1), i+1)
+			if c.Async {
+				emit(fmt.Sprintf("var GN%d = 0, PH%d = 0;", 900+i, 900+i))
+				emit(fmt.Sprintf("async function AB%d() {", i))
+				staleTry(900+i, c.Stale, "await")
+				emit(fmt.Sprintf("return %s;", r.callExpr(i+1)))
+				emit("}")
+				invoke = fmt.Sprintf("AB%d().catch(function(e){ LOGR(%d, e); });", i, i+1)
+			} else {
+				invoke = fmt.Sprintf("Promise.resolve().then(function(){ return %s; }).catch(function(e){ LOGR(%d, e); });", r.callExpr(i+1), i+1)
+			}
+		} else if f.Body != "" {
+			emit(fmt.Sprintf("var GN%d = 0, PH%d = 0;", 900+i, 900+i))
+			emit(fmt.Sprintf("function* GB%d() {", i))
+			staleTry(900+i, f.Stale, "yield")
+			emit(invoke)
+			emit("}")
+			if f.Body == "gen-next" {
+				invoke = fmt.Sprintf("var g%d = GB%d(); g%d.next(); g%d.next(); g%d.next();", i, i, i, i, i)
+			} else {
+				invoke = fmt.Sprintf("var n%d = 0; for (var x%d of GB%d()) { if (++n%d > 8) break; }", i, i, i, i)
+			}
 		}
 		emit(fmt.Sprintf("function F%d() {", i))
 		if f.Catch != "" || f.Fin {
@@ -704,6 +767,28 @@ func runCase(c0 Case) vh.Record {
 		emit(fmt.Sprintf("function C%d() { return %s; }", k, r.callExpr(k)))
 		emit(fmt.Sprintf("var G%d = { get foo() { return C%d(); } };", k, k))
 		emit(fmt.Sprintf("var I%d = { [Symbol.iterator]() { return { next() { C%d(); return {done: true}; } }; } };", k, k))
+		gen, stale := c.EntryGen, c.Stale
+		if k > 0 {
+			gen, stale = r.frames[k-1].Gen, r.frames[k-1].Stale
+		}
+		if gen {
+			tag := 800 + k
+			emit(fmt.Sprintf("var GN%d = 0, PH%d = 0;", tag, tag))
+			emit(fmt.Sprintf("function* IGB%d() {", k))
+			emit("try {")
+			emit("yield 1;")
+			if stale == "finally" {
+				emit(fmt.Sprintf("} finally { if (PH%d) LOGF(%d); }", tag, tag))
+			} else {
+				emit(fmt.Sprintf("} catch (e) { LOGC(%d, e); }", tag))
+			}
+			emit("yield 2;")
+			emit(fmt.Sprintf("if (++GN%d > 4) return;", tag))
+			emit(fmt.Sprintf("PH%d = 1;", tag))
+			emit(fmt.Sprintf("C%d();", k))
+			emit("}")
+			emit(fmt.Sprintf("var IG%d = { [Symbol.iterator]() { return IGB%d(); } };", k, k))
+		}
 	}
 	switch c.Th.T {
 	case "jsthrow":
@@ -751,7 +836,7 @@ func runCase(c0 Case) vh.Record {
 				hpanic = x
 			}
 		}()
-		herr = r.callNext(0, c.Entry)
+		herr = r.callNext(0, c.Entry, c.EntryGen)
 	}()
 	vm.ClearInterrupt()
 
@@ -875,6 +960,12 @@ func runCase(c0 Case) vh.Record {
 	tags := []string{"th:" + c.Th.T, "entry:" + c.Entry, "host:" + hostClass, fmt.Sprintf("depth:%d", n)}
 	if c.HasPost {
 		tags = append(tags, "promise-job")
+		if c.Async {
+			tags = append(tags, "async-body:stale-"+map[bool]string{true: "finally", false: "catch"}[c.Stale == "finally"])
+		}
+	}
+	if c.EntryGen {
+		tags = append(tags, "entry-forof-generator")
 	}
 	if posChecked {
 		tags = append(tags, "pos-checked")
@@ -886,6 +977,9 @@ func runCase(c0 Case) vh.Record {
 		if f.K == "nat" {
 			nNat++
 			ts = []string{"en:" + f.En, "cb:" + f.Cb, "h:" + effHandler(f)}
+			if f.Gen {
+				ts = append(ts, "cb:forof-generator")
+			}
 		} else if f.Catch != "" || f.Fin {
 			nTry++
 			ts = []string{"js:catch=" + f.Catch + fmt.Sprintf(",fin=%v", f.Fin)}
@@ -994,6 +1088,12 @@ func genFrames(r *vh.Rng, n int, startJS bool) []Frame {
 				}
 			}
 			fs = append(fs, f)
+			if r.Chance(22) {
+				f.Body = []string{"gen-next", "gen-forof"}[r.Intn(2)]
+				if r.Chance(35) {
+					f.Stale = "finally"
+				}
+			}
 			js = r.Chance(12)
 		} else {
 			f := Frame{K: "nat", En: entries[r.Intn(len(entries))], Cb: callbacks[r.Intn(len(callbacks))], S: 1 + r.Intn(3)}
@@ -1001,6 +1101,12 @@ func genFrames(r *vh.Rng, n int, startJS bool) []Frame {
 				f.En = "reflerr"
 			}
 			f.H = handlers[r.Pick(30, 12, 8, 30, 12, 6)]
+			if f.Cb == "forof" && r.Bool() {
+				f.Gen = true
+				if r.Chance(35) {
+					f.Stale = "finally"
+				}
+			}
 			fs = append(fs, f)
 			js = true
 		}
@@ -1037,9 +1143,16 @@ func genCase(r *vh.Rng, idx int) Case {
 		c.Th.X = r.Intn(3)
 	}
 	depth := r.Pick(2, 8, 14, 18, 16, 12, 10, 8, 6)
+	if c.Entry == "forof" && r.Bool() {
+		c.EntryGen = true
+	}
+	if r.Chance(35) {
+		c.Stale = "finally"
+	}
 	if r.Chance(12) {
 		k := r.Intn(depth + 1)
 		c.HasPost = true
+		c.Async = r.Bool()
 		c.Ops = genFrames(r, k, true)
 		c.Post = genFrames(r, depth-k, r.Bool())
 	} else {
